@@ -71,7 +71,17 @@ func (d c16Doc) render(format string) []byte {
 // mutateCfg derives the next document from the previous one.
 func mutateCfg(t *rapid.T, prev cfggen.Config) (cfggen.Config, string) {
 	c := prev.Clone()
-	switch rapid.IntRange(0, 11).Draw(t, "mutation") {
+	switch rapid.IntRange(0, 13).Draw(t, "mutation") {
+	case 12:
+		// a filter list that the loader cannot parse completely (a typo in one entry): whatever it makes
+		// of it, it makes the same of it after a reload as on a fresh start
+		bad := rapid.SampledFrom([]string{"not-a-prefix", "10.1.2.3", "10.1.0.0/33", ""}).Draw(t, "bad_cidr")
+		if rapid.Bool().Draw(t, "bad_in_deny") {
+			c.PrefixDeny = []string{bad}
+		} else {
+			c.PrefixAllow = []string{bad, "10.2.0.0/16"}
+		}
+		return c, "unparsable-filter-entry"
 	case 0:
 		c.PrefixDeny = nil
 		return c, "drop-deny"
